@@ -20,7 +20,9 @@ VARIABLE k
 EqFails(c) ==
   LET l == Laws(c.eq, c.ne, c.hash, c.val, c.far, c.n) IN
   {<<l[m][1], CHOOSE p \in l[m][2] : TRUE>> : m \in {m2 \in DOMAIN l : l[m2][2] # {}}}
-  \cup (IF c.setsize < 0 \/ c.setsize = Cardinality({c.val[i] : i \in 1..c.n}) THEN {}
+  \* a Python set of the pool has exactly one member per class of the recorded == (values that MAY compare either
+  \* way -- near-equal cache keys -- make the number of classes a matter of the table, not of val)
+  \cup (IF c.setsize < 0 \/ c.setsize = Cardinality({{j \in 1..c.n : c.eq[i][j] = 1} : i \in 1..c.n}) THEN {}
         ELSE {<<"a set keeps exactly one instance per value", <<1, 1>>>>})
   \cup (IF c.lemma = 0 \/ LawsHoldOnInduced(c.val, c.n) THEN {} ELSE {<<"MODEL: laws on the induced relation", <<1, 1>>>>})
 
